@@ -82,6 +82,9 @@ pub struct Plan {
     /// (client, operation, KiB): operations executed that much deeper in the caller's stack
     #[serde(default)]
     pub deep_stack: Vec<(usize, usize, usize)>,
+    /// the stubbed store's `get` calls back into the library (a nested evaluation) on every call
+    #[serde(default)]
+    pub reenter_get: bool,
 }
 
 #[derive(Clone, Debug, Serialize, Deserialize)]
@@ -430,6 +433,7 @@ pub fn execute(plan: Plan, full: bool) -> RunResult {
             let repr = w.plan.repr;
             if sim_repr(repr) {
                 simdoc::set_personality(Personality(repr - 1));
+                simdoc::set_reenter_get(w.plan.reenter_get);
             }
             sch.wait_turn(c);
             tu.fetch_add(1, std::sync::atomic::Ordering::Relaxed);
@@ -444,6 +448,7 @@ pub fn execute(plan: Plan, full: bool) -> RunResult {
                     let back = std::thread::Builder::new().stack_size(16 << 20).spawn(move || {
                         if sim_repr(w2.plan.repr) {
                             simdoc::set_personality(Personality(w2.plan.repr - 1));
+                            simdoc::set_reenter_get(w2.plan.reenter_get);
                         }
                         tu2.fetch_add(1, std::sync::atomic::Ordering::Relaxed);
                         sched::install_ctx(ctx);
@@ -624,7 +629,14 @@ pub fn sweep_family(seed: u64, f: u64, out: &mut SweepOut) {
         7 => DocParams { max_nodes: 40 + rng.below(40), max_depth: 8 + rng.below(6), names, max_width: 3, long_arrays: false },
         _ => DocParams { max_nodes: 6 + rng.below(20), max_depth: 1 + rng.below(4), names, max_width: 5, long_arrays: true },
     };
-    let doc = gen::gen_doc(&mut rng, &p);
+    let mut doc = gen::gen_doc(&mut rng, &p);
+    if f % 17 == 4 {
+        // under 17-30 levels of plain-named objects
+        let levels = 17 + rng.below(14);
+        for i in 0..levels {
+            doc = json!({ ["a", "b", "c", "k1"][i % 4]: doc, "s": i as i64 });
+        }
+    }
     let mut names_in = vec![];
     gen::names_of(&doc, &mut names_in);
     let g = QGen { names: &names_in, fancy: true, regex: f % 4 == 0, ext: true, safe_quotes: false, reenter: false };
@@ -634,9 +646,28 @@ pub fn sweep_family(seed: u64, f: u64, out: &mut SweepOut) {
     }
     let b = DocBox::new(&doc, sim_repr(repr), 0);
     let before = doc.to_string();
-    for _ in 0..20 {
+    let all_locs = crate::npath::all_locs(&doc);
+    for k in 0..23 {
         let t = rng.weighted(&[3, 4, 3]);
         let mut q = g.query(&mut rng, t);
+        if k >= 20 {
+            // the path of an existing location, spelled as a plain chain where the names allow
+            let loc = rng.pick(&all_locs);
+            q = String::from("$");
+            for st in loc {
+                match st {
+                    crate::npath::Step::Name(n) if gen::shorthand_ok(n) => {
+                        q.push('.');
+                        q.push_str(n);
+                    }
+                    crate::npath::Step::Name(n) => q.push_str(&format!("[{}]", gen::quote_single(n))),
+                    crate::npath::Step::Idx(i) => q.push_str(&format!("[{}]", i)),
+                }
+            }
+            if rng.chance(1, 3) {
+                q.push_str(".zz");
+            }
+        }
         match rng.below(12) {
             0 => q = gen::respell(&mut rng, &q),
             1 => q = gen::twin(&mut rng, &q),
@@ -870,6 +901,43 @@ pub fn gen_corpus_with(seed: u64, n_fam: usize, q_per_fam: usize, adv: bool) -> 
             let mut fq = vec![];
             for q in ["$..c", "$..[?@.c]", "$.b0..c", "$..c[?@>0]", "$.c", "$..b1..c", "$[?@..c]", "$..[?@.c>=0].c", "$.b0.a.a..c"] {
                 queries.push(q.to_string());
+                fq.push(queries.len() - 1);
+                q_other_family.push(f);
+            }
+            families.push(fam);
+            fam_queries.push(fq);
+            continue;
+        }
+        if adv && n_fam >= 8 && f == 3 {
+            // the chain family: objects nested 24 deep under plain names, and queries that are long plain
+            // chains of names (15 to 24 of them), some ending in a member that does not exist
+            let names = ["a", "b", "c", "d", "x", "k1"];
+            let build = |leaf: Value| -> Value {
+                let mut v = leaf;
+                for i in (0..24).rev() {
+                    v = json!({ names[i % names.len()]: v, "s": i as i64 });
+                }
+                v
+            };
+            let mut fam = vec![];
+            for t in [build(json!("leaf")), build(json!(["leaf", 1])), build(json!({"a": "deeper"}))] {
+                contents.push(t.to_string());
+                fam.push(contents.len() - 1);
+            }
+            let mut fq = vec![];
+            let chain = |n: usize| -> String { (0..n).map(|i| format!(".{}", names[i % names.len()])).collect::<String>() };
+            let mut qs: Vec<String> = vec![];
+            for n in [3usize, 15, 16, 17, 18, 20, 24] {
+                qs.push(format!("${}", chain(n)));
+                qs.push(format!("${}.s", chain(n - 1)));
+            }
+            qs.push(format!("${}.zz", chain(17)));
+            qs.push(format!("${}.zz.a", chain(16)));
+            qs.push(format!("${}[0]", chain(24)));
+            qs.push(format!("${}.a", chain(24)));
+            qs.push("$..s".to_string());
+            for q in qs {
+                queries.push(q);
                 fq.push(queries.len() - 1);
                 q_other_family.push(f);
             }
@@ -1290,6 +1358,7 @@ pub fn gen_plan_opt(c: &Corpus, run_seed: u64, allow_stress: bool) -> (Plan, Pla
         schedule: None,
         filler_from: if stress { Some(n_normal_q) } else { None },
         deep_stack,
+        reenter_get: repr > 0 && !stress && rng.chance(1, 4),
     };
     // fillers select nothing whatever the document (their names occur nowhere), so they need no cold
     // process each; a sample of them is computed cold anyway, to check exactly that assumption
